@@ -138,12 +138,13 @@ def triage_crash(prop, variant, crash_file, kind):
     if os.path.exists(crash_file):
         for line in open(crash_file):
             parts = line.strip().split(" ", 2)
-            if len(parts) == 3 and parts[0] in ("CRASH", "HANG"):
+            if len(parts) == 3 and parts[0] in ("CRASH", "HANG", "FAIL"):
                 try:
                     cands.append(json.loads(parts[2]))
                 except Exception:
                     pass
     os.makedirs(REPLAYS, exist_ok=True)
+    # cases that already failed an oracle before the process died / hung come first
     for case in cands:
         tmp = os.path.join(OUT, f"cand-{case_sig(case)}.json")
         json.dump({"case": case}, open(tmp, "w"))
